@@ -471,7 +471,49 @@ func c20Gen(tier string, seed int64) []core.Case {
 			cs = append(cs, core.Case{ID: id, Class: id, Kind: "history", Cost: cost, P: core.P{"curve": curve, "i": i, "k": tierN(tier, 8, 25)}})
 		}
 	}
+	// setting up a session from the saved parties in any order: building the sorted committee must not reorder or otherwise
+	// change what the caller passed in (callers pair ids[i] with keys[i] by position)
+	cs = append(cs, core.Case{ID: "setup/sorting-leaves-the-callers-list-alone", Class: "setup/sorting", Kind: "sorting", Cost: 1})
 	return cs
+}
+
+// c20Sorting: tss.SortPartyIDs on descending, shuffled and duplicate-free lists.
+func c20Sorting(r *core.Result, seed int64) {
+	rg := rng(seed, "c20sorting")
+	for rep := 0; rep < 50; rep++ {
+		n := 2 + rg.Intn(8)
+		un := make(tss.UnSortedPartyIDs, n)
+		for i := range un {
+			un[i] = tss.NewPartyID(fmt.Sprint("id", i), fmt.Sprint("m", i), big.NewInt(int64(1000*(n-i)+rg.Intn(900))))
+		}
+		if rep%2 == 1 {
+			rg.Shuffle(n, func(i, j int) { un[i], un[j] = un[j], un[i] })
+		}
+		before := append(tss.UnSortedPartyIDs{}, un...)
+		sorted := tss.SortPartyIDs(un)
+		for i := range un {
+			if un[i] != before[i] {
+				r.Fail("sorting:input-reordered", "tss.SortPartyIDs reordered the caller's list (position %d of %d)", i, n)
+				return
+			}
+		}
+		if len(sorted) != n {
+			r.Fail("sorting:length", "SortPartyIDs returned %d of %d parties", len(sorted), n)
+			return
+		}
+		for i := range sorted {
+			if i > 0 && sorted[i-1].KeyInt().Cmp(sorted[i].KeyInt()) >= 0 {
+				r.Fail("sorting:order", "SortPartyIDs output is not ascending by key")
+				return
+			}
+			if sorted[i].Index != i {
+				r.Fail("sorting:index", "SortPartyIDs did not number the parties by position")
+				return
+			}
+		}
+		r.Count("lists_sorted", 1)
+	}
+	r.NonTrivial = true
 }
 
 // nonceTap records each signer's revealed nonce commitment from the wire.
@@ -553,6 +595,10 @@ func jsonReload(r *core.Result, ks keyset) keyset {
 
 func c20Run(c core.Case, env *core.Env) core.Result {
 	r := res(c)
+	if c.Kind == "sorting" {
+		c20Sorting(&r, env.Seed)
+		return r
+	}
 	curve := c.P.Str("curve")
 	shapes := [][2]int{{3, 1}, {4, 2}, {5, 2}, {3, 2}}
 	sh := shapes[c.P.Int("i")%len(shapes)]
